@@ -197,6 +197,10 @@ def tv_once(ctx, spec, cfg, trace, prop, name, timeout=1800, extra_env=None, cov
         for k, v in acts.items():
             cov[k] = cov.get(k, 0) + v
         ctx.tv_action_counts = cov
+    # situations a trace specification accepts only because they are listed as known findings (it names them)
+    for mm in re.finditer(r'<<"TVKNOWN", "([^"]+)", (\d+)>>', r.stdout):
+        kn = ctx.__dict__.setdefault('tv_known', {})
+        kn[mm.group(1)] = kn.get(mm.group(1), 0) + 1
     m = re.search(r'<<"TVMARK", (\d+), (\d+)>>', r.stdout)
     if not m and r.returncode == 124:
         return dict(timeout=True, accepted=False, mark=0, total=0, generated=0, distinct=0)
